@@ -45,6 +45,7 @@ func (p *Program) maxlenTag(ref string) (int, bool) {
 func checkC23(r *Run) {
 	r.Explain = "C23: (R1) values of the five truncatable message types with items are built only by their New*Message constructors (composite literals elsewhere are the empty measuring value); (R2) each constructor caps the items at the field's maxlen tag (table agreement, read from the struct tag) and calls the matching truncate function with its maxMsgLength parameter, which call sites bind to the configured MaxOutgoingMessageLength; (R3/R4) a truncate function returns early only when the whole message fits in max-4; otherwise it keeps a prefix: the kept index advances in every continuing iteration, an iteration continues only if size+item <= max-4 where size starts at the empty message's encoded size and the item size is the generated codec's size function, and the slice is cut to [:index+1]; hash lists are cut to (max-4-empty)/32; (R5) gnet refuses to send a message longer than the configured maximum."
 	r.NotDec = "'longest prefix' as a value statement beyond the loop shape; the size functions' agreement with the bytes written is C21"
+	ruleConfigPassthrough(r, "C23-R6")
 	type tm struct {
 		typ, field, ctor, trunc, elemSize string
 	}
